@@ -1,5 +1,5 @@
 import EdpVerif.Impl.PidAlloc
-import EdpVerif.Generated.Misc
+import EdpVerif.Generated.MiscC17
 /-!
 Model of the remote-call bookkeeping of `crates/edp_node/src/node.rs`:
 `Node::rpc_call_raw_with_timeout`, the `Send` arm of `Node::route_message`, and the part of `spawn_receiver_task`
